@@ -341,3 +341,14 @@ PROPS["C11"] = {
                            "floors": {"C11.onereply": {"identical-questions-in-flight": 0.5, "tight-capacity": 0.2, "servfail": 0.3, "healthy-with-budget": 0.04, "expired-on-arrival": 0.1, "post-load-probe": 0.2}}},
               "expiryrace": {"pkg": "./server", "run": "^TestVerifC11ExpiryRace$", "tiers": {"quick": T(150, 2, timeout=600), "thorough": T(4000, 4, timeout=3000)}}},
 }
+
+PROPS["C09"] = {
+    "level": "exploration",
+    "technique": "model-based history testing of AutoTA in-package under a virtual clock: a scripted root publishes generated DNSKEY sets, restarts / crashes at every persistence failpoint / failing writes / damaged stores are generated, and a reference ledger of what each refresh could authenticate judges the live trust set after every step",
+    "level_text": ("Key universe: the configured anchor K0, successors K1/K2, an attacker's key K3 and K4 whose key tag collides with K0's (16-bit word swap). Histories of 3-14 steps (one in four opens with a directed scenario: two trusted anchors, one optionally goes missing, is then revoked while a fault hits that refresh) mix: refreshes against a publication that evolves by add / drop / revoke / un-revoke, signed by nobody, only the attacker, only revoked keys, or everybody, optionally with corrupted signatures; sleeps of 1 h ... 91 d around the 30 d / 90 d hold-downs; restarts with a generated anchor configuration; crashes (a panic out of the n-th gob-write failpoint, then a new Resolver on the same directory); refusals of the tombstone write, the state write or both; garbage / truncated / zero-length tombstone stores. "
+                   "The ledger tracks, from the publications alone, which keys a refresh's signatures could authenticate (configured or persisted, not revoked), since when each key has been listed in every fully authenticated refresh, which self-signed revocations were seen in a refresh that got a record to disk, and when trusted keys went missing. After every completed refresh: no revoked-form key is live; no key with an accepted revocation is live; a non-configured key is live only after 30 days of listings; an unauthenticated response removes nothing and adds nothing but configured anchors; a response authenticated only by a revoked key adds nothing; if neither record of a new revocation could be written, or the store is damaged, the live set is empty; a configured or held-down key that was published by the previous refresh and has not been missing for 90 days is still live. Exploration."),
+    "level_note": "Trusted: the ledger (it is deliberately more permissive than sdns wherever the disk lagged behind memory: after a crash or failed state write 'changes nothing' and 'stays trusted' are not judged until the next persisted refresh). Between a restart and the first refresh NewResolver publishes the configuration as is; the property is judged on what AutoTA publishes. Signatures are ECDSA P-256 only; the root is reached through the in-memory network.",
+    "rule": ("evaluations = histories. Non-trivial = a revocation was accepted, a crash was followed by a restart, the store was damaged, or a refresh was authenticated only by a revoked key; distinct = hash(step shapes)."),
+    "units": {"anchors": {"pkg": "./middleware/resolver", "run": "^TestVerifC09Anchors$", "tiers": {"quick": T(1500, 8, timeout=900), "thorough": T(50000, 12, timeout=3400)},
+                          "floors": {"C09.anchors": {"revocation-accepted": 0.1, "crash-then-restart": 0.05, "store-damaged": 0.02, "revocation-only-refresh": 0.03, "unauthenticated-refresh": 0.2, "restart": 0.2, "writefail": 0.05, "fail-closed": 0.03}}}},
+}
